@@ -77,10 +77,11 @@ func (f *FileStream) read(n int) ([]rune, error) {
 	}
 	f.encBuffer = remains
 
-	if !f.hasRead {
+	// the first char may arrive only after several (short) reads
+	if !f.hasRead && len(data) > 0 {
 		f.hasRead = true
 		// detect BOM, if BOM on the first char, then remove it directly.
-		if len(data) > 0 && data[0] == BOM {
+		if data[0] == BOM {
 			data = data[1:]
 		}
 	}
